@@ -7,7 +7,7 @@
    history of server events -- which can only be true if every event built from a secret
    is Sensitive and no handler copies a secret into an injected ERROR.
    StripRaw and the tail of Event.Pretty are arbitrary functions throughout. *)
-Require Import Bytes Utf8 Base64 Sasl SaslSpec FormatLemmas Base64Lemmas SaslProofs SaslFailClosed.
+Require Import Bytes Utf8 Base64 CapLib Sasl SaslSpec FormatLemmas Base64Lemmas SaslProofs SaslFailClosed.
 From Coq Require Import Lia.
 
 Section LogProofs.
@@ -93,7 +93,7 @@ Section LogProofs.
     cfg_low_eq c1 c2 ->
     List.map redact (registration_writes c1) = List.map redact (registration_writes c2).
   Proof.
-    intros [_ Hp Hw Ht Hn Hu Hna]. unfold registration_writes.
+    intros [_ Hp Hw Ht Hn Hu Hna _]. unfold registration_writes.
     rewrite Hp, Hw, Ht, Hn, Hu, Hna. rewrite !map_app. f_equal; [|f_equal].
     - destruct (is_nil (w_password (cfg_webirc c2))); reflexivity.
     - destruct (is_nil (cfg_server_pass c2)); reflexivity.
@@ -163,21 +163,26 @@ End LogProofs.
     intros Hs. destruct s1 as [m1|], s2 as [m2|]; cbn [sasl_low_eq] in Hs; try contradiction; reflexivity.
   Qed.
 
-  Lemma handle_cap_slim_ni c1 c2 ns e :
-    cfg_low_eq c1 c2 -> handle_cap_slim c1 ns e = handle_cap_slim c2 ns e.
-  Proof.
-    intros [Hs _ _ _ _ _ _]. unfold handle_cap_slim, has_sasl.
-    destruct (cfg_sasl c1) as [m1|], (cfg_sasl c2) as [m2|]; cbn [sasl_low_eq] in Hs; try contradiction.
-    - destruct Hs as [Hm _]. rewrite Hm. reflexivity.
-    - reflexivity.
-  Qed.
+  Lemma cap_cfg_of_low_eq c1 c2 : cfg_low_eq c1 c2 -> cap_cfg_of c1 = cap_cfg_of c2.
+Proof.
+  intros [Hs _ _ Ht Hn Hu Hna _]. unfold cap_cfg_of. rewrite Ht, Hn, Hu, Hna.
+  destruct (cfg_sasl c1) as [m1|], (cfg_sasl c2) as [m2|]; cbn [sasl_low_eq] in Hs; try contradiction.
+  - destruct Hs as [Hm _]. cbn [option_map]. rewrite Hm. reflexivity.
+  - reflexivity.
+Qed.
 
-  Lemma run_handlers_ni c1 c2 ns e :
+Lemma handle_cap_ni c1 c2 ns e :
+  cfg_low_eq c1 c2 -> handle_cap c1 ns e = handle_cap c2 ns e.
+Proof.
+  intros Hc. unfold handle_cap. rewrite (cap_cfg_of_low_eq c1 c2 Hc), (le_ord c1 c2 Hc). reflexivity.
+Qed.
+
+Lemma run_handlers_ni c1 c2 ns e :
     cfg_low_eq c1 c2 ->
     exists ns' o1 o2, run_handlers c1 ns e = Ok (ns', o1) /\ run_handlers c2 ns e = Ok (ns', o2) /\
       List.map redact_out o1 = List.map redact_out o2 /\ first_inject o1 = first_inject o2.
   Proof.
-    intros Hc. pose proof Hc as [Hs _ _ Ht _ _ _]. unfold run_handlers. rewrite Ht.
+    intros Hc. pose proof Hc as [Hs _ _ Ht _ _ _ _]. unfold run_handlers. rewrite Ht.
     destruct (negb (cfg_tracking c2) || ev_echo e). { eexists _, _, _. repeat split. }
     destruct (streqb (ev_cmd e) c_AUTHENTICATE || streqb (ev_cmd e) n903).
     { destruct (handle_sasl_ni _ _ e Hs) as [o1 [o2 [H1 [H2 [Hr Hi]]]]]. rewrite H1, H2. cbn [rbind].
@@ -185,7 +190,7 @@ End LogProofs.
     destruct (is_sasl_error_numeric (ev_cmd e)).
     { rewrite (handle_sasl_error_ni _ _ e Hs). eexists _, _, _. repeat split. }
     destruct (streqb (ev_cmd e) c_CAP).
-    { rewrite (handle_cap_slim_ni c1 c2 ns e Hc). destruct (handle_cap_slim c2 ns e) as [ns' o].
+    { rewrite (handle_cap_ni c1 c2 ns e Hc). destruct (handle_cap c2 ns e) as [ns' o].
       eexists _, _, _. repeat split. }
     eexists _, _, _. repeat split.
   Qed.
@@ -271,7 +276,7 @@ Proof. intros H. split; [reflexivity|]. intros ps. exact H. Qed.
 
 Definition ni_cfg (u p spass wpass : str) : config :=
   mkCfg (Some (mkMech (bs "PLAIN") (sasl_plain_encode u p))) spass
-        (mkWebirc wpass (bs "gw") (bs "host") (bs "192.0.2.7")) true (bs "me") (bs "user") (bs "name").
+        (mkWebirc wpass (bs "gw") (bs "host") (bs "192.0.2.7")) true (bs "me") (bs "user") (bs "name") sort_strs.
 
 Example low_eq_example :
   cfg_low_eq (ni_cfg (bs "jilles") (bs "sesame") (bs "hunter2") (bs "w1"))
@@ -312,8 +317,8 @@ Definition steps_low_eq (s1 s2 : list (sasl_mech * event)) : Prop :=
 Lemma set_sasl_low_eq c1 c2 m1 m2 :
   cfg_low_eq c1 c2 -> mech_low_eq m1 m2 -> cfg_low_eq (set_sasl c1 m1) (set_sasl c2 m2).
 Proof.
-  intros [_ Hp Hw Ht Hn Hu Hna] Hm. constructor; cbn [set_sasl cfg_sasl cfg_server_pass cfg_webirc
-    cfg_tracking cfg_nick cfg_user cfg_name sasl_low_eq]; assumption.
+  intros [_ Hp Hw Ht Hn Hu Hna Ho] Hm. constructor; cbn [set_sasl cfg_sasl cfg_server_pass cfg_webirc
+    cfg_tracking cfg_nick cfg_user cfg_name cfg_ord sasl_low_eq]; assumption.
 Qed.
 
 Section SessionLogStatefulNI.
